@@ -57,6 +57,7 @@ def run_scenario(scen, hooks=None, keep_dir=False):
     hooks = hooks or {}
     sim = Sim(scen["seed"])
     seams.install(sim)
+    install_pick_tap()
     seams.assert_installed()
     gseed = scen.get("global_seed", hint(2**31 - 1, scen["seed"], "global"))
     np.random.seed(gseed)
@@ -175,6 +176,28 @@ def _run(scen, sim, final, info, hooks, scratch):
     _run_tuner(sim, scen, tuner, final, info, hooks, backend, store)
 
 
+_PICKS = []
+
+
+def install_pick_tap():
+    """Tap (class level, so it survives pickling and clone_from_state): did the model-based searcher decide to draw
+    the next configuration at random (initial phase / no data) or from the surrogate model?"""
+    from syne_tune.optimizer.schedulers.searchers.model_based_searcher import BayesianOptimizationSearcher as B
+
+    del _PICKS[:]
+    if getattr(B, "_dst_tapped", False):
+        return
+    orig = B._should_pick_random_config
+
+    def tapped(self, exclusion_candidates):
+        r = orig(self, exclusion_candidates)
+        _PICKS.append(bool(r))
+        return r
+
+    B._should_pick_random_config = tapped
+    B._dst_tapped = True
+
+
 def gp_state(scheduler):
     """Snapshot of the surrogate model's data set (searcher.state_transformer.state, a documented attribute)."""
     searcher = getattr(scheduler, "searcher", None)
@@ -206,6 +229,9 @@ def taps(scheduler, name, rec, ret, ev):
     st = gp_state(scheduler)
     if st is not None:
         ev["gp"] = st
+        if name == "suggest":
+            ev["gp_pick"] = list(_PICKS)
+    del _PICKS[:]
     term = getattr(scheduler, "terminator", None)
     if term is None:
         br = getattr(scheduler, "_brackets", None)
@@ -314,6 +340,17 @@ def _run_tuner(sim, scen, tuner, final, info, hooks, backend, store):
             final["best"] = {"trial": int(tid), "config": canon(cfg)}
         except BaseException as e:
             final["best"] = {"error": "%s: %s" % (type(e).__name__, str(e)[:200])}
+        if len(scen["metrics"]) > 1:
+            # multi-objective: the best configuration can be asked for every metric, by index and by name
+            others = []
+            for i, name in enumerate(scen["metrics"]):
+                for by, arg in (("index", i), ("name", name)):
+                    try:
+                        tid, cfg = tuner.best_config(metric=arg)
+                        others.append({"i": i, "by": by, "trial": int(tid)})
+                    except BaseException as e:
+                        others.append({"i": i, "by": by, "error": "%s: %s" % (type(e).__name__, str(e)[:200])})
+            final["best_by_metric"] = others
         try:
             from syne_tune.experiments import load_experiment
 
